@@ -5,6 +5,7 @@ import common
 import gen
 
 ALLOWED_AXIOMS = common.FLOCQ_AXIOMS
+NEEDS_BINARY = True
 ASSUMPTIONS = [
     "the file system is an oracle (path -> readable text / not UTF-8 / directory / absent) that does not change during a run",
 ]
@@ -69,7 +70,41 @@ def explore(ctx):
                     lines.append("EVAL 0 " + common.hexs("(import (%s))" % names[t]))
                 cases.append({"lines": lines, "graph": {"names": names, "edges": edges, "kinds": list(kinds)}, "how": how,
                               "history": hist, "nsetup": nsetup})
+    # library files are located relative to the directory of the program file, whatever the working directory and
+    # however the program is named: libraries next to the program, decoys of the same names elsewhere
+    h = common.hexs
+    prog_cases = []
+    for names, edges, kinds in ctx.rng.sample(graphs, min(len(graphs), 40 if ctx.quick else 600)):
+        lines = []
+        for k, n in enumerate(names):
+            imports = [names[b] for a, b in edges if a == k]
+            if kinds[k] == "missing":
+                pass
+            elif kinds[k] == "not-utf8":
+                lines.append("FILE %s %s BAD" % (h("prog"), h(n)))
+            else:
+                lines.append("FILE %s %s %s" % (h("prog"), h(n), h(gen.library_text(n, imports, kinds[k]))))
+            for decoy_dir in ("elsewhere", "cwd"):
+                lines.append("FILE %s %s %s" % (h(decoy_dir), h(n), h(
+                    "(define-library (%s) (export decoy-%s) (import (scheme base)) (begin (define decoy-%s 'decoy)))" % (n, n, n))))
+        t = ctx.rng.randrange(len(names))
+        main = "(import (scheme base) (scheme write) (%s))\n(display 'loaded)\n" % names[t]
+        lines.append("FILE %s %s %s" % (h("prog"), h("main.scm"), h(main)))
+        npre = len(lines)
+        lines += ["RUNBIN %s %s" % (h("prog"), h("main.scm")), "RUNBIN %s %s rel" % (h("prog"), h("main.scm")),
+                  "NEW 0 std", "RUNFILE 0 %s %s" % (h("prog"), h("main.scm"))]
+        prog_cases.append({"lines": lines, "graph": {"names": names, "edges": edges, "kinds": list(kinds)}, "npre": npre})
+    presults, pndis = common.run_cases(ctx, prog_cases, timeout=1200)
+    naming = 0
+    for c, (ml, il, d) in zip(prog_cases, presults):
+        if il[c["npre"]] != il[c["npre"] + 1]:
+            naming += 1
+            if naming <= 3:
+                ctx.violation({"lines": c["lines"], "meta": {"graph": c["graph"]}}, ml, il,
+                              note="the outcome of loading depends on how the program file is named: absolute %s, relative %s"
+                                   % (il[c["npre"]], il[c["npre"] + 1]))
     results, ndis = common.run_cases(ctx, cases)
+    ndis += pndis
     # the property on the (proved-about) model's output: the outcome of an import attempt depends only on the graph
     # and the target, not on the attempts made before it on the same interpreter
     first = {}
@@ -93,7 +128,8 @@ def explore(ctx):
     # and the outcome is what the graph prescribes: cyclic iff a cycle is reachable through healthy nodes before any fault
     return {
         "evaluations": sum(len(c["history"]) for c in cases),
-        "programs": len(cases),
+        "programs": len(cases) + len(prog_cases),
+        "program_directory_cases": len(prog_cases), "naming_dependent_outcomes": naming,
         "distinct_nontrivial": len({(str(c["graph"]), c["how"]) for c in cases if c["graph"]["edges"]}),
         "traces_validated_against_impl": len(cases) - ndis,
         "disagreements": ndis,
@@ -103,7 +139,9 @@ def explore(ctx):
                 "as files in the working directory and as registered sources, x histories of 1, 2 and 3 import attempts on "
                 "one interpreter%s; observable: outcome kind and location per attempt, compared model vs implementation; and "
                 "the outcome of every attempt is compared with the outcome of the same import on a fresh interpreter "
-                "(history independence). non-trivial = distinct graph with at least one edge"
+                "(history independence); plus program files with the libraries next to them and decoy libraries of the same names "
+                "in the working directory, run through the built binary by absolute and by relative path and through eval_file "
+                "(lookup relative to the program's directory). non-trivial = distinct graph with at least one edge"
                 % (" (sampled)" if ctx.quick else " and sampled graphs on 3", " (sampled)" if ctx.quick else ""),
         "exhaustive": not ctx.quick,
         "input_distribution": dict(dist, **{"outcome " + k: v for k, v in outcomes.items()}),
@@ -113,4 +151,6 @@ def explore(ctx):
 
 
 def replay(ctx, path):
+    with common.Lock():
+        common.build_binary()
     return common.replay_case(ctx, path)
